@@ -424,36 +424,51 @@ def r_named(c):
     def cl(n):
         if isinstance(n, ast.Call):
             f = ast.unparse(n.func)
-            if f == f"{vg}.is_name_conflicting":
-                return "CHECK"
-            if f == f"{vg}.add_name":
-                return "ADD"
-            if f == vg:
-                return "GEN"
-        if isinstance(n, ast.Return) and isinstance(n.value, ast.Attribute) \
-                and n.value.attr == "name":
-            return "RETNAME"
+            if f == f"{vg}.is_name_conflicting" and n.args:
+                return "CHECK:" + ast.unparse(n.args[0])
+            if f == f"{vg}.add_name" and n.args:
+                return "ADD:" + ast.unparse(n.args[0])
+        if isinstance(n, ast.Return) and n.value is not None:
+            minted = any(isinstance(x, ast.Call) and ast.unparse(x.func) in (vg, f"{vg}.__call__")
+                         for x in ast.walk(n.value))
+            return "RETGEN" if minted else "RET:" + ast.unparse(n.value)
         if isinstance(n, ast.Raise):
             return "RAISE"
         return None
     ps = P.walk(fd, cl)
     where = m.loc("pytato.codegen", fd)
-    bad = [e for (e, x) in ps if "RETNAME" in e and not (
-        "CHECK" in e and "ADD" in e and e.index("CHECK") < e.index("ADD") < e.index("RETNAME"))]
-    has = any("RETNAME" in e for (e, _x) in ps)
-    c.check(has and not bad, "R15-NAMED", "codegen._generate_name_for_temp",
+    bad = []
+    n_user = 0
+    for (e, x) in ps:
+        rets = [l for l in e if l.startswith("RET:")]
+        if not rets:
+            continue
+        n_user += 1
+        v = rets[-1][4:]
+        # the returned (user-chosen) name was tested for a conflict, then reserved
+        # (the same expression, or the attribute it was read from)
+        def same(lab, kind):
+            a = lab[len(kind) + 1:]
+            return a == v or a.endswith(".name") and v.endswith(".name") and a == v
+        chk = [i for i, l in enumerate(e) if l.startswith("CHECK:") and same(l, "CHECK")]
+        add = [i for i, l in enumerate(e) if l.startswith("ADD:") and same(l, "ADD")]
+        if not (chk and add and chk[0] < add[0] < e.index(rets[-1])):
+            bad.append(e)
+    c.check(n_user and not bad, "R15-NAMED", "codegen._generate_name_for_temp",
             "conflict-test-then-reserve-then-return", where,
-            "the Named path returns the tag's name without first testing it for a "
-            f"conflict and then reserving it ({bad[:1]}): two arrays can silently get "
-            "the same name")
+            "a path returns a name that the generator did not mint without first testing "
+            f"that very name for a conflict and then reserving it ({bad[:1]}): two arrays "
+            "can silently get the same name")
     # the conflict test raises
     ok = any(isinstance(i, ast.If) and f"{vg}.is_name_conflicting" in ast.unparse(i.test)
              and any(isinstance(s, ast.Raise) for s in i.body) for i in ast.walk(fd))
     c.check(ok, "R15-NAMED", "codegen._generate_name_for_temp", "conflict-raises", where,
             "a conflicting Named tag no longer raises")
     # every other path mints through the generator
-    other = [e for (e, x) in ps if x == "return" and "RETNAME" not in e and "GEN" not in e]
-    c.check(not other, "R15-NAMED", "codegen._generate_name_for_temp",
+    other = [e for (e, x) in ps if x == "return" and "RETGEN" not in e
+             and not any(l.startswith("RET:") for l in e)]
+    c.check(not other and any("RETGEN" in e for e, _x in ps), "R15-NAMED",
+            "codegen._generate_name_for_temp",
             "other-paths-use-generator", where,
             "a path returns a name that was not minted by the generator")
     # Named is a unique tag: at most one name per array
